@@ -1377,7 +1377,7 @@ def gate_behaviours(tier):
     return chosen, len(behs), len(covered), len(allf), art
 
 
-GATE_GOALS = 12
+GATE_GOALS = 13
 
 
 def gate_goal_behaviours(tier):
@@ -1429,7 +1429,7 @@ def gate_replay(ck, prop, tier, front="api"):
     # a behaviour that left the model, or on which a monitor fired, is replayed once more on its own before it counts: clock
     # ticks and the monitors' allowances are real time, and a stalled machine makes a timer see more time than the model's
     # clock says (a real defect is forced by the same schedule again and shows again)
-    redo = [byid[r["id"]] for r in results if (r.get("diverged") or r.get("stuck") or r.get("early") or r["results"] != r["accepted"])
+    redo = [byid[r["id"]] for r in results if (r.get("diverged") or r.get("stuck") or r.get("early") or r.get("option_lost") or r["results"] != r["accepted"])
             and not r["hang"]][:32]
     if redo:
         rr, _ = run_life(redo, watchdog=8000, cmd="life-gate", procs=2, extra=extra)
@@ -1466,6 +1466,8 @@ def gate_replay(ck, prop, tier, front="api"):
                  {"accepted_starts": res["accepted"], "results": res["results"], "diverged": d})
         for e in res.get("early") or []:
             disc("result-before-stop", "early-result/" + e["mode"], res, {"search": e["search"], "note": e["note"], "diverged": d})
+        for e in res.get("option_lost") or []:
+            disc("setoption", "option/not-applied-although-protocol-valid", res, {"note": e, "diverged": d})
         for e in res.get("stuck") or []:
             disc("search-does-not-end", "no-self-end/" + e["mode"], res, {"search": e["search"], "note": e["note"], "diverged": d})
     ck.cov.setdefault("counters", {})
